@@ -238,9 +238,6 @@ Proof.
   rewrite <- (save_path_put _ _ _ Hsp), Hget. reflexivity.
 Qed.
 
-(* the name of a target file under consistent snapshots is plain when the resolved name is and the
-   digest is written in hex *)
-Definition is_hexdigit (c : byte) : bool := ((48 <=? c) && (c <=? 57)) || ((97 <=? c) && (c <=? 102)).
 
 (* ---------------------------------------------------------------------------------------- *)
 (* the known class is not empty, and what happens there *)
@@ -378,4 +375,139 @@ Proof.
   rewrite Hstd.
   destruct (role_filename cs v name) as [|c r] eqn:E; [reflexivity|].
   inversion Hns as [|? ? Hc _]; subst. apply N.eqb_neq in Hc. rewrite Hc. reflexivity.
+Qed.
+
+(* ---------------------------------------------------------------------------------------- *)
+(* Target names over the unreserved characters and '/': whatever TargetName::new makes of such a (relative) name
+   is a plain file name, with and without the digest prefix - so for these names nothing is in the known class. *)
+From ToughV Require Import Proofs.TNameP.
+
+Lemma normalize_keeps (P : bytes -> Prop) comps : forall stack,
+  Forall P stack -> Forall P comps -> Forall P (normalize stack comps).
+Proof.
+  induction comps as [|c r IH]; intros stack Hs Hc; cbn [normalize]; [apply Forall_rev, Hs|].
+  inversion Hc as [|? ? Hc1 Hc2]; subst.
+  destruct (is_empty c || is_dot c); [apply IH; assumption|].
+  destruct (is_dotdot c).
+  - apply IH; [|assumption]. destruct stack; [constructor|]. inversion Hs; assumption.
+  - apply IH; [|assumption]. constructor; assumption.
+Qed.
+
+Lemma unreserved_plain_char c : unreserved c = true -> plain_char c = true.
+Proof. intros H. apply fname_char_plain_char. unfold fname_char. rewrite H. reflexivity. Qed.
+
+Lemma hexdigit_unreserved c : is_hexdigit c = true -> unreserved c = true.
+Proof. unfold is_hexdigit, unreserved, is_alnum. lia. Qed.
+
+(* a component of unreserved characters that is neither "." nor ".." is a plain segment *)
+Lemma unreserved_comp_plain c : forallb unreserved c = true -> is_normal c = true -> plain_seg c = true.
+Proof.
+  intros Hu Hn. unfold is_normal in Hn. apply negb_true_iff in Hn.
+  apply orb_false_iff in Hn as [Hn Hdd]. apply orb_false_iff in Hn as [He Hd].
+  assert (H37 : ~ In 37 c).
+  { intros Hin. rewrite forallb_forall in Hu. specialize (Hu _ Hin). discriminate Hu. }
+  unfold plain_seg. rewrite He. cbn [negb andb].
+  assert (Hp : forallb plain_char c = true)
+    by (eapply forallb_impl; [|exact Hu]; apply unreserved_plain_char).
+  rewrite Hp. cbn [andb].
+  assert (Hs : single_dot c = false).
+  { unfold single_dot. destruct (dot_tok c) as [r|] eqn:E; [|reflexivity]. destruct r; [|reflexivity].
+    apply dot_tok_inv in E. destruct E as [-> | [-> | ->]].
+    - discriminate Hd.
+    - exfalso. apply H37. left. reflexivity.
+    - exfalso. apply H37. left. reflexivity. }
+  assert (Hdb : double_dot c = false).
+  { unfold double_dot. destruct (dot_tok c) as [r|] eqn:E; [|reflexivity].
+    destruct (dot_tok r) as [r2|] eqn:E2; [|reflexivity]. destruct r2; [|reflexivity].
+    apply dot_tok_inv in E, E2.
+    destruct E as [-> | [-> | ->]]; try (exfalso; apply H37; left; reflexivity).
+    destruct E2 as [-> | [-> | ->]]; try (exfalso; apply H37; right; left; reflexivity).
+    discriminate Hdd. }
+  assert (Hdr : is_drive c = false).
+  { unfold is_drive. destruct c as [|a [|b [|x t]]]; try reflexivity.
+    cbn [forallb] in Hu. rewrite !andb_true_iff in Hu. destruct Hu as (_ & Hb & _).
+    assert ((b =? 58) || (b =? 124) = false) as ->
+      by (unfold unreserved, is_alnum in Hb; lia).
+    apply andb_false_r. }
+  rewrite Hs, Hdb, Hdr. reflexivity.
+Qed.
+
+Lemma no_colon_no_scheme s : ~ In 58 s -> has_scheme s = false.
+Proof.
+  intros H. unfold has_scheme. destruct s as [|c r]; [reflexivity|].
+  destruct (scheme_rest r) eqn:E; [|apply andb_false_r].
+  exfalso. apply H. right. apply scheme_rest_colon. exact E.
+Qed.
+
+Lemma chars_of_segs (P : byte -> bool) s :
+  forallb (forallb P) (split_slash [] s) = true -> forallb (fun c => P c || (c =? 47)) s = true.
+Proof. intros H. rewrite split_slash_chars in H. cbn [forallb] in H. exact H. Qed.
+
+Theorem safe_name_plain name r :
+  forallb (fun c => unreserved c || (c =? 47)) name = true ->
+  match name with c :: _ => c =? 47 | [] => false end = false ->
+  clean_name name = inr r ->
+  url_plain r = true
+  /\ forall h, h <> [] -> forallb is_hexdigit h = true -> url_plain (h ++ 46 :: r) = true.
+Proof.
+  intros Hch Hrel H. unfold clean_name in H.
+  destruct (is_dotdot name); [discriminate|]. destruct (is_empty name); [discriminate|].
+  rewrite Hrel in H. cbn [app] in H.
+  set (stack := normalize [] (split_slash [] name)) in *.
+  destruct (is_empty (join_slash stack)) eqn:E1; [discriminate|].
+  destruct (bytes_eqb (join_slash stack) [47]); [discriminate|].
+  injection H as <-.
+  assert (Hne : stack <> []) by (intros Hn; rewrite Hn in E1; discriminate E1).
+  assert (Hnorm : Forall normal_comp stack).
+  { apply normalize_normal; [constructor|]. apply split_slash_no_slash. intros []. }
+  assert (Hun : Forall (fun c => forallb unreserved c = true) stack).
+  { apply normalize_keeps; [constructor|]. apply Forall_forall. intros c Hc.
+    assert (Hall : forallb (forallb unreserved) (split_slash [] name) = true).
+    { rewrite split_slash_chars. cbn [forallb]. exact Hch. }
+    rewrite forallb_forall in Hall. apply Hall. exact Hc. }
+  assert (Hns : Forall no_slash stack) by (eapply Forall_impl; [|exact Hnorm]; intros c [_ X]; exact X).
+  assert (Hplain : forallb plain_seg stack = true).
+  { apply forallb_forall. intros c Hc. rewrite Forall_forall in Hun, Hnorm.
+    apply unreserved_comp_plain; [apply Hun, Hc | apply (Hnorm c Hc)]. }
+  assert (Hsplit : split_slash [] (join_slash stack) = stack).
+  { rewrite (split_join stack Hne Hns [] ltac:(intros [])). cbn [rev app].
+    destruct stack; [contradiction | reflexivity]. }
+  (* the characters of the resolved name *)
+  assert (Hrch : forallb (fun c => unreserved c || (c =? 47)) (join_slash stack) = true).
+  { apply chars_of_segs. rewrite Hsplit. apply forallb_forall. rewrite Forall_forall in Hun. exact Hun. }
+  assert (Hnocolon : forall pre, forallb unreserved pre = true -> ~ In 58 (pre ++ join_slash stack)).
+  { intros pre Hpre Hin. apply in_app_or in Hin as [Hin|Hin].
+    - rewrite forallb_forall in Hpre. specialize (Hpre _ Hin). discriminate Hpre.
+    - rewrite forallb_forall in Hrch. specialize (Hrch _ Hin). discriminate Hrch. }
+  split.
+  - unfold url_plain. rewrite Hsplit, Hplain.
+    pose proof (Hnocolon [] eq_refl) as Hc0. cbn [app] in Hc0.
+    rewrite (no_colon_no_scheme _ Hc0). reflexivity.
+  - intros h Hh Hhex. unfold url_plain.
+    assert (Hhu : forallb unreserved (h ++ [46]) = true).
+    { rewrite forallb_app. cbn [forallb]. rewrite andb_true_r.
+      eapply forallb_impl; [|exact Hhex]. apply hexdigit_unreserved. }
+    assert (Hcolon : ~ In 58 (h ++ 46 :: join_slash stack)).
+    { change (h ++ 46 :: join_slash stack) with (h ++ [46] ++ join_slash stack).
+      rewrite app_assoc. apply Hnocolon. exact Hhu. }
+    rewrite (no_colon_no_scheme _ Hcolon). cbn [negb andb].
+    assert (Hhns : no_slash (h ++ [46])).
+    { intros Hin. rewrite forallb_forall in Hhu. specialize (Hhu _ Hin). discriminate Hhu. }
+    change (h ++ 46 :: join_slash stack) with (h ++ [46] ++ join_slash stack). rewrite app_assoc.
+    rewrite (split_slash_app _ Hhns), app_nil_r.
+    rewrite (split_join stack Hne Hns (rev (h ++ [46]))
+               ltac:(intros Hin; apply in_rev in Hin; exact (Hhns Hin))).
+    rewrite rev_involutive. destruct stack as [|c0 rest]; [contradiction|]. cbn [hd tl forallb].
+    cbn [forallb] in Hplain. apply andb_true_iff in Hplain as [Hc0 Hrest]. rewrite Hrest, andb_true_r.
+    inversion Hun as [|? ? Hu0 _]; subst. inversion Hnorm as [|? ? [Hn0 _] _]; subst.
+    (* the first component, prefixed: unreserved characters, at least three of them, beginning with a hex digit *)
+    assert (Hall : forallb unreserved ((h ++ [46]) ++ c0) = true) by (rewrite forallb_app, Hhu, Hu0; reflexivity).
+    apply unreserved_comp_plain; [exact Hall|].
+    destruct h as [|a t]; [contradiction|].
+    cbn [forallb] in Hhex. apply andb_true_iff in Hhex as [Ha _].
+    assert (Ha46 : (a =? 46) = false) by (unfold is_hexdigit in Ha; lia).
+    unfold is_normal. apply negb_true_iff. rewrite !orb_false_iff. split; [split|].
+    + reflexivity.
+    + unfold is_dot. cbn [app bytes_eqb]. rewrite Ha46. reflexivity.
+    + unfold is_dotdot. cbn [app bytes_eqb]. rewrite Ha46. reflexivity.
 Qed.
